@@ -29,6 +29,12 @@ theorem leadingCount_maximal (ch : Char) (n : Nat) (cs : List Char)
     (h : leadingCount ch n cs < n) : (cs.drop (leadingCount ch n cs)).head? ≠ some ch := by
   fun_induction leadingCount ch n cs <;> simp_all
 
+theorem leadingCount_replicate_append (ch : Char) (n : Nat) (cs : List Char) :
+    leadingCount ch n (List.replicate n ch ++ cs) = n := by
+  induction n with
+  | zero => simp [leadingCount]
+  | succ k ih => simp [List.replicate_succ, leadingCount, ih]
+
 /-- Byte count of the strip on the forward/backward list of a genuine encoding. -/
 theorem stripCount_map (ch : Char) (n : Nat) (cs : List Char) :
     stripCount ch n (cs.map fun c => (c, c.utf8Size)) = leadingCount ch n cs * ch.utf8Size := by
